@@ -23,6 +23,136 @@ fn opt_pair_i(p: &Option<(BigInt, BigInt)>) -> String {
     }
 }
 
+// ---------------------------------------------------------------------------------------------
+// api-coverage: the scalar division forms named in C03's anchors (`Div/Rem<u32|u64|u128> for BigUint`,
+// `Div/Rem<BigUint> for u32|u64|u128` which inspect the divisor's digit count, `impl_rem_assign_scalar!`, and the
+// BigInt leaves for unsigned and signed scalars), in their by-value leaf form; u8/u16/usize/i8/i16/isize go
+// through the promotion impls first.  `which`: 0 `x / v`, 1 `x % v`, 2 `v / x`, 3 `v % x`, 4 `x /= v`, 5 `x %= v`.
+use core::ops::{Div, DivAssign, Rem, RemAssign};
+
+fn sc_u<T>(x: BigUint, v: T, which: u8) -> BigUint
+where
+    T: Copy + Div<BigUint, Output = BigUint> + Rem<BigUint, Output = BigUint>,
+    BigUint: Div<T, Output = BigUint> + Rem<T, Output = BigUint> + DivAssign<T> + RemAssign<T>,
+{
+    match which {
+        0 => x / v,
+        1 => x % v,
+        2 => v / x,
+        3 => v % x,
+        4 => {
+            let mut y = x;
+            y /= v;
+            y
+        }
+        _ => {
+            let mut y = x;
+            y %= v;
+            y
+        }
+    }
+}
+
+fn sc_i<T>(x: BigInt, v: T, which: u8) -> BigInt
+where
+    T: Copy + Div<BigInt, Output = BigInt> + Rem<BigInt, Output = BigInt>,
+    BigInt: Div<T, Output = BigInt> + Rem<T, Output = BigInt> + DivAssign<T> + RemAssign<T>,
+{
+    match which {
+        0 => x / v,
+        1 => x % v,
+        2 => v / x,
+        3 => v % x,
+        4 => {
+            let mut y = x;
+            y /= v;
+            y
+        }
+        _ => {
+            let mut y = x;
+            y %= v;
+            y
+        }
+    }
+}
+
+/// `scalar %= BigUint` (`impl_rem_assign_scalar!`, by value → `forward_val_assign_scalar!` → by reference)
+fn sc_rem_assign<T>(mut v: T, x: BigUint) -> BigInt
+where
+    T: Copy + RemAssign<BigUint> + Into<BigInt>,
+{
+    v %= x;
+    v.into()
+}
+
+/// scalar token `<type>:<decimal>`, parsed into exactly that primitive type
+macro_rules! scalar_dispatch {
+    ($tok:expr, |$v:ident| $body:expr, unsigned) => {{
+        let (ty, s) = $tok.split_once(':')?;
+        match ty {
+            "u8" => { let $v = s.parse::<u8>().ok()?; $body }
+            "u16" => { let $v = s.parse::<u16>().ok()?; $body }
+            "u32" => { let $v = s.parse::<u32>().ok()?; $body }
+            "u64" => { let $v = s.parse::<u64>().ok()?; $body }
+            "u128" => { let $v = s.parse::<u128>().ok()?; $body }
+            "usize" => { let $v = s.parse::<usize>().ok()?; $body }
+            _ => return None,
+        }
+    }};
+    ($tok:expr, |$v:ident| $body:expr, all) => {{
+        let (ty, s) = $tok.split_once(':')?;
+        match ty {
+            "u8" => { let $v = s.parse::<u8>().ok()?; $body }
+            "u16" => { let $v = s.parse::<u16>().ok()?; $body }
+            "u32" => { let $v = s.parse::<u32>().ok()?; $body }
+            "u64" => { let $v = s.parse::<u64>().ok()?; $body }
+            "u128" => { let $v = s.parse::<u128>().ok()?; $body }
+            "usize" => { let $v = s.parse::<usize>().ok()?; $body }
+            "i8" => { let $v = s.parse::<i8>().ok()?; $body }
+            "i16" => { let $v = s.parse::<i16>().ok()?; $body }
+            "i32" => { let $v = s.parse::<i32>().ok()?; $body }
+            "i64" => { let $v = s.parse::<i64>().ok()?; $body }
+            "i128" => { let $v = s.parse::<i128>().ok()?; $body }
+            "isize" => { let $v = s.parse::<isize>().ok()?; $body }
+            _ => return None,
+        }
+    }};
+}
+
+fn scalar_op(op: &str, a: &[&str]) -> Option<String> {
+    let which = |name: &str| -> Option<u8> {
+        Some(match name {
+            "div_s" => 0,
+            "rem_s" => 1,
+            "s_div" => 2,
+            "s_rem" => 3,
+            "div_assign_s" => 4,
+            "rem_assign_s" => 5,
+            _ => return None,
+        })
+    };
+    Some(match (op, a) {
+        ("s.rem_assign_u", [tv, x]) => {
+            let x = parse_u(x)?;
+            ok_i(&scalar_dispatch!(tv, |v| sc_rem_assign(v, x), all))
+        }
+        (_, [p, q]) if op.starts_with("u.") => {
+            let w = which(&op[2..])?;
+            // scalar-left forms carry the scalar first
+            let (x, tv) = if w == 2 || w == 3 { (q, p) } else { (p, q) };
+            let x = parse_u(x)?;
+            ok_u(&scalar_dispatch!(tv, |v| sc_u(x, v, w), unsigned))
+        }
+        (_, [p, q]) if op.starts_with("i.") => {
+            let w = which(&op[2..])?;
+            let (x, tv) = if w == 2 || w == 3 { (q, p) } else { (p, q) };
+            let x = parse_i(x)?;
+            ok_i(&scalar_dispatch!(tv, |v| sc_i(x, v, w), all))
+        }
+        _ => return None,
+    })
+}
+
 pub fn handle(op: &str, a: &[&str]) -> Option<String> {
     Some(match (op, a) {
         // ---- BigUint
@@ -81,6 +211,15 @@ pub fn handle(op: &str, a: &[&str]) -> Option<String> {
         ("i.checked_div_rem_euclid", [x, y]) => {
             opt_pair_i(&CheckedEuclid::checked_div_rem_euclid(&parse_i(x)?, &parse_i(y)?))
         }
+        // api-coverage: the INHERENT `BigInt::checked_div` (src/bigint.rs; `i.checked_div` above is the trait impl
+        // `CheckedDiv for BigInt` of src/bigint/division.rs — two separate bodies)
+        ("i.checked_div_m", [x, y]) => opt_i(&BigInt::checked_div(&parse_i(x)?, &parse_i(y)?)),
+        // api-coverage: scalar division forms (see `scalar_op`)
+        (
+            "s.rem_assign_u" | "u.div_s" | "u.rem_s" | "u.s_div" | "u.s_rem" | "u.div_assign_s" | "u.rem_assign_s"
+            | "i.div_s" | "i.rem_s" | "i.s_div" | "i.s_rem" | "i.div_assign_s" | "i.rem_assign_s",
+            [_, _],
+        ) => return scalar_op(op, a),
         // ---- internal hooks (raw digit slices)
         #[cfg(num_bigint_verif)]
         ("raw.div_rem_core", [x, y]) => {
